@@ -193,7 +193,8 @@ def main_property(mod, tier, seed, replay=None, out=sys.stdout):
                 cc["id"] = 0
                 r, _ = evaluate(mod, [cc], build_cache)
                 vv = r[0][2]
-                return (not vv["prop"]) and is_known(vv, known) is None
+                # same kind of failure: do not trade a property failure for a malformed case
+                return (not vv["prop"]) and is_known(vv, known) is None and vv["corr"] == v["corr"]
             try:
                 m = ddmin(c[skey], still, budget=12)
                 if len(m) < len(c[skey]):
